@@ -602,16 +602,30 @@ def run_case(names, ops, full=True):
     outcome = real.apply(last)
     J = Judge(names, rev)
     judge_transition(real, state, last, state1, info, outcome, full, J)
+    tainted = 0
+    if len(ops) > 1 and any(not x[0].startswith(PATHS_ONLY) for x in J.v):
+        # Attribute a divergence to the FIRST operation that causes it: if the state before the last
+        # operation already differs from the model, the prefix (itself an explored transition) reports it.
+        pre = Real(names)
+        for op in ops[:-1]:
+            pre.apply(op)
+        J0 = Judge(names, rev)
+        observe(pre, state, ("list",), {"cls": "list"}, False, J0)
+        real.calls += pre.calls
+        if any(not x[0].startswith(PATHS_ONLY) for x in J0.v):
+            tainted = 1
+            J.v = [x for x in J.v if x[0].startswith(PATHS_ONLY)]
     out = []
     for sig, clause, detail in J.v:
         out.append({"signature": sig, "clause": clause,
                     "detail": dict(detail, sequence=[list(o) for o in ops]),
                     "replay": {"names": list(names), "ops": [list(o) for o in ops], "full": bool(full)}})
     nontrivial = _nontrivial(info)
-    return out, (real.calls, J.evals, J.outcomes, real.dup_left_txn, nontrivial)
+    return out, (real.calls, J.evals, J.outcomes, real.dup_left_txn, nontrivial, tainted)
 
 
 _REV = {}
+PATHS_ONLY = "load_paths|next_"  # disagreement between the two real loading paths: judged without the model
 
 
 def _nontrivial(info):
@@ -637,11 +651,12 @@ def _expand(item):
     for op in seq:
         state, _ = m_step(state, op)
     viol = {}
-    calls = evals = txn = nontriv = n = 0
+    calls = evals = txn = nontriv = n = taint = 0
     outcomes = set()
     for idx, op in enumerate(m_enabled(state)):
         full = FULL_ALL or idx in newidx
-        vs, (c, e, oc, t, nt) = run_case(NAMES, list(seq) + [op], full)
+        vs, (c, e, oc, t, nt, tn) = run_case(NAMES, list(seq) + [op], full)
+        taint += tn
         n += 1
         calls += c
         evals += e
@@ -655,7 +670,7 @@ def _expand(item):
                 viol[v["signature"]] = v
             else:
                 cur["count"] += 1
-    return n, calls, evals, txn, nontriv, sorted(outcomes, key=repr), list(viol.values())
+    return n, calls, evals, txn, nontriv, sorted(outcomes, key=repr), list(viol.values()), taint
 
 
 def run(ctx):
@@ -674,7 +689,7 @@ def run(ctx):
                 "keeps some messages")
     seen = {m_key(m_init())}
     level = [((), m_init())]
-    tot = dict(tr=0, calls=0, evals=0, txn=0, nontriv=0)
+    tot = dict(tr=0, calls=0, evals=0, txn=0, nontriv=0, taint=0)
     per_level = []
     last_level = level
     for dpt in range(1, depth + 1):
@@ -694,8 +709,9 @@ def run(ctx):
             items.append((seq, frozenset(newidx)))
         res = ctx.pmap(_expand, items, chunk=max(1, min(64, len(items) // (ctx.workers * 6) or 1)))
         ltr = 0
-        for (n, calls, evals, txn, nontriv, outcomes, viols) in res:
+        for (n, calls, evals, txn, nontriv, outcomes, viols, taint) in res:
             ltr += n
+            tot["taint"] += taint
             tot["tr"] += n
             tot["calls"] += calls
             tot["evals"] += evals
@@ -709,7 +725,8 @@ def run(ctx):
             last_level = nxt
         level = nxt
     ctx.count(states=len(seen), transitions=tot["tr"], traces=tot["tr"], evaluations=tot["evals"],
-              nontrivial=tot["nontriv"], journaler_calls=tot["calls"], duplicate_left_open_transaction=tot["txn"])
+              nontrivial=tot["nontriv"], journaler_calls=tot["calls"], duplicate_left_open_transaction=tot["txn"],
+              transitions_not_judged_because_prefix_diverged=tot["taint"])
     ctx.bounds = {"depth": depth, "sessions": [list(s) for s in session_ids(NAMES)], "numbers": NUMS,
                   "set_values": [str(v) for v in SETVALS], "int_bound_grid": GRID, "string_bounds": [list(b) for b in STR_BOUNDS],
                   "lookups": LOOKUPS, "payload_variants": 2, "per_level": per_level}
